@@ -27,6 +27,9 @@ type Client struct {
 	inbox    []refcodec.Tran
 	drained  int
 	FrameErr error // first re-framing error of this client's stream
+	// WideInts makes Agreed send its integer fields (icon, options) in the 4-byte encoding, which the protocol allows
+	// as well as the 2-byte one.
+	WideInts bool
 	HsReply  []byte
 }
 
@@ -238,6 +241,9 @@ func (c *Client) Login(o LoginOpts) (refcodec.Tran, bool) {
 func (c *Client) Agreed(name string, icon int, options int, autoReply string) (refcodec.Tran, bool) {
 	fs := []refcodec.Field{
 		refcodec.FS(102, name), refcodec.F(104, refcodec.U16(icon)), refcodec.F(113, refcodec.U16(options)),
+	}
+	if c.WideInts {
+		fs[2] = refcodec.F(113, refcodec.U32(options))
 	}
 	if autoReply != "" {
 		fs = append(fs, refcodec.FS(215, autoReply))
